@@ -31,6 +31,7 @@ type c16Op struct {
 	Name, Group, Action string
 	Value, Add, Set     *int
 	Buckets             bool
+	BucketsEmpty        bool // with Buckets: the list is spelled `[]` (present, no bounds: the default bounds are used)
 	Labels              map[string]string
 }
 
@@ -58,6 +59,9 @@ func (o c16Op) jsonLine() string {
 	}
 	if o.Buckets {
 		m["buckets"] = []float64{1, 2, 5}
+		if o.BucketsEmpty {
+			m["buckets"] = []float64{}
+		}
 	}
 	if o.Labels != nil {
 		m["labels"] = o.Labels
@@ -612,6 +616,12 @@ func (g *c16Gen) batch(hook string, pool []string) ([]c16Op, bool) {
 				o.Action, o.Value = "add", ip(rng.Range(0, 8))
 			case 2:
 				o.Action, o.Value, o.Buckets = "observe", ip(rng.Range(0, 12)), true
+				// the bucket list is present but empty (legal: the default bounds are used; a histogram
+				// keeps the bounds of its first registration, and the scrape is compared on sum/count)
+				if rng.Chance(40) {
+					o.BucketsEmpty = true
+					w.c.Note("buckets:empty-list")
+				}
 			}
 			if kind < 2 && rng.Chance(25) {
 				if kind == 0 {
@@ -622,6 +632,11 @@ func (g *c16Gen) batch(hook string, pool []string) ([]c16Op, bool) {
 			}
 			ops = append(ops, o)
 			w.c.Note("op:ungrouped-" + []string{"set", "add", "observe"}[kind])
+			// the same line once more (hooks emit runs of identical lines)
+			if rng.Chance(12) {
+				ops = append(ops, o)
+				w.c.Note("op:repeated-line")
+			}
 		}
 	}
 	if len(ops) == 0 {
@@ -643,12 +658,67 @@ func (g *c16Gen) batch(hook string, pool []string) ([]c16Op, bool) {
 			{Name: "ug1", Value: ip(1)},
 		}[rng.Intn(10)]
 		at := rng.Intn(len(ops) + 1)
-		ops = append(ops[:at], append([]c16Op{bad}, ops[at:]...)...)
+		// 45%: the invalid operation is a TWIN of an operation of this batch — the same line with one
+		// member taken away or spoiled (value, buckets, name, action; a second shortcut) — placed somewhere
+		// behind it: the two differ in nothing but what makes one of them invalid.
+		if rng.Chance(45) {
+			src := rng.Intn(len(ops))
+			if tw, how, ok := c16Twin(rng, ops[src]); ok {
+				bad = tw
+				at = src + 1 + rng.Intn(len(ops)-src)
+				w.c.Note("invalid:twin-" + how)
+			}
+		}
+		ops = append(ops[:at:at], append([]c16Op{bad}, ops[at:]...)...)
 		w.c.Note("batch:invalid")
 	} else {
 		w.c.Note("batch:valid")
 	}
 	return ops, invalid
+}
+
+// c16Twin makes an invalid operation out of a valid one by taking away / spoiling exactly one member.
+func c16Twin(rng *Rng, o c16Op) (c16Op, string, bool) {
+	var hows []string
+	if o.Action == "expire" {
+		return o, "", false
+	}
+	if o.Value != nil && o.Action != "" {
+		hows = append(hows, "no-value")
+	}
+	if o.Action == "observe" && o.Buckets {
+		hows = append(hows, "no-buckets", "no-buckets")
+	}
+	if o.Action != "" {
+		hows = append(hows, "bogus-action")
+	}
+	if o.Name != "" {
+		hows = append(hows, "no-name")
+	}
+	if o.Action == "" && (o.Set != nil) != (o.Add != nil) {
+		hows = append(hows, "both-shortcuts")
+	}
+	if len(hows) == 0 {
+		return o, "", false
+	}
+	how := PickOne(rng, hows)
+	switch how {
+	case "no-value":
+		o.Value = nil
+	case "no-buckets":
+		o.Buckets, o.BucketsEmpty = false, false
+	case "bogus-action":
+		o.Action = "bogus"
+	case "no-name":
+		o.Name = ""
+	case "both-shortcuts":
+		if o.Set != nil {
+			o.Add = o.Set
+		} else {
+			o.Set = o.Add
+		}
+	}
+	return o, how, true
 }
 
 // commit updates the generator's ownership bookkeeping after a valid batch.
@@ -685,7 +755,7 @@ func (g *c16Gen) commit(hook string, ops []c16Op) {
 }
 
 func runC16(r *Run) {
-	r.Rule = "histories of 1..8 steps by 4 hooks through the real operation parser + MetricStorage.SendBatch on a private registry, observed by Gatherer.Gather() after every step. A step is one batch, or (22%) a CONCURRENT step: 2..4 batches of different hooks, each with its own group(s), sent by one goroutine each in a random start order while a gated Registerer (installed as MetricStorage.Registerer and as the vault's registerer) holds every first registration of a metric open until all calls were started; 70% of the concurrent steps let all their hooks report the same never-used grouped gauge and counter names. A concurrent step is judged against EVERY linearisation of its batches through the reference registry (return value of each call + scrape after all returned). Batches of 1..6 operations mixing up to 2 of 4 groups with ungrouped operations; metric names shared between groups; label sets over the names a, b, x, y (two sorting before `hook`, two after; each present with 30%) with ONE pool of 3 values for all names (equal values under different names), 10% explicit empty values, a `hook` label that must be overridden (15%); action/value and shortcut (`add`/`set`) forms, integer and half-fractional values, explicit expire at any position, 14% of the batches carry one invalid operation (10 kinds) at a random position. Generators stay outside the recorded finding classes (same series written by two groups, name used grouped and ungrouped, ungrouped label-name change, one name with two types), which are replayed as separate known cases. Non-trivial: >= 2 batches, at least one grouped and one valid batch; distinct = distinct op-line sequences. TEXT steps (30% of the sequential steps): the batch is spelled as the text of the metrics file a hook leaves behind (member order, blanks between all tokens, key case, six number spellings per value, \\u escapes, unknown members with nested brackets in strings, nulls for absent fields, duplicate keys; documents joined with or without blanks) and, in 35% of them, damaged in the shapes of harness/c04out.go (cut off inside the last document, stray closers before/between/after documents, trailing garbage, wrong JSON types per field, bad tokens, separators, top-level non-objects, an operation validation rejects; 4%: blank file); the text goes the way a hook's file goes: MetricOperationsFromFile + SendBatch with the hook label unless reading failed (what Hook.Run + handleRunHook do), 10% through a real bash hook and Hook.Run, and in operator worlds (4% of the cases: an assembled ShellOperator with a real hook manager and four bash hooks, its HookMetricStorage is the registry of the case) through the real queue handler taskHandler -> taskHandleHookRun -> handleRunHook. Whether a text is acceptable is decided by the Lean driver from the bytes (HookOutput.metricsOk); a rejected text must fail the execution and leave the scrape unchanged, an accepted one goes through the reference registry. NAMES: 25% of the metric names (grouped and ungrouped, hot names of concurrent steps included) are spelled with the storage's {PREFIX} placeholder, 40% of the worlds give the storage the prefix p_ (else empty): both spellings of one metric occur in one history; op lines and scrape are compared on the RESOLVED name (the harness's own reading of the placeholder). GROUPS: 35% of the cases draw their groups from a pool of near-equal names that are different groups (surrounding blanks, tab, an all-blank group, letter case, inner blanks), 20% draw label values from such a pool ('1', ' 1', '1 ' / 'a', 'A' / '1', '01', '1.0')."
+	r.Rule = "histories of 1..8 steps by 4 hooks through the real operation parser + MetricStorage.SendBatch on a private registry, observed by Gatherer.Gather() after every step. A step is one batch, or (22%) a CONCURRENT step: 2..4 batches of different hooks, each with its own group(s), sent by one goroutine each in a random start order while a gated Registerer (installed as MetricStorage.Registerer and as the vault's registerer) holds every first registration of a metric open until all calls were started; 70% of the concurrent steps let all their hooks report the same never-used grouped gauge and counter names. A concurrent step is judged against EVERY linearisation of its batches through the reference registry (return value of each call + scrape after all returned). Batches of 1..6 operations mixing up to 2 of 4 groups with ungrouped operations; metric names shared between groups; label sets over the names a, b, x, y (two sorting before `hook`, two after; each present with 30%) with ONE pool of 3 values for all names (equal values under different names), 10% explicit empty values, a `hook` label that must be overridden (15%); action/value and shortcut (`add`/`set`) forms, integer and half-fractional values, explicit expire at any position, 14% of the batches carry one invalid operation at a random position: one of 10 fixed kinds or (45% of them) a TWIN of an operation of the same batch — that line with one member taken away or spoiled (value, buckets, name, action, a second shortcut) — placed behind it; 40% of the ungrouped observe operations spell their bucket list as `[]` (present, empty: default bounds), 12% of the ungrouped operations are written twice in a row. Generators stay outside the recorded finding classes (same series written by two groups, name used grouped and ungrouped, ungrouped label-name change, one name with two types), which are replayed as separate known cases. Non-trivial: >= 2 batches, at least one grouped and one valid batch; distinct = distinct op-line sequences. TEXT steps (30% of the sequential steps): the batch is spelled as the text of the metrics file a hook leaves behind (member order, blanks between all tokens, key case, six number spellings per value, \\u escapes, unknown members with nested brackets in strings, nulls for absent fields, duplicate keys; documents joined with or without blanks) and, in 35% of them, damaged in the shapes of harness/c04out.go (cut off inside the last document, stray closers before/between/after documents, trailing garbage, wrong JSON types per field, bad tokens, separators, top-level non-objects, an operation validation rejects; 4%: blank file); the text goes the way a hook's file goes: MetricOperationsFromFile + SendBatch with the hook label unless reading failed (what Hook.Run + handleRunHook do), 10% through a real bash hook and Hook.Run, and in operator worlds (4% of the cases: an assembled ShellOperator with a real hook manager and four bash hooks, its HookMetricStorage is the registry of the case) through the real queue handler taskHandler -> taskHandleHookRun -> handleRunHook. Whether a text is acceptable is decided by the Lean driver from the bytes (HookOutput.metricsOk); a rejected text must fail the execution and leave the scrape unchanged, an accepted one goes through the reference registry. NAMES: 25% of the metric names (grouped and ungrouped, hot names of concurrent steps included) are spelled with the storage's {PREFIX} placeholder, 40% of the worlds give the storage the prefix p_ (else empty): both spellings of one metric occur in one history; op lines and scrape are compared on the RESOLVED name (the harness's own reading of the placeholder). GROUPS: 35% of the cases draw their groups from a pool of near-equal names that are different groups (surrounding blanks, tab, an all-blank group, letter case, inner blanks), 20% draw label values from such a pool ('1', ' 1', '1 ' / 'a', 'A' / '1', '01', '1.0')."
 	// ---- corpus: the repaired defects (must now hold) ----
 	r.One(0, func(c *Case, _ *Rng) {
 		c.Desc = "corpus: grouped {\"add\":1} shortcut counts once (was applied twice)"
